@@ -1151,7 +1151,7 @@ def growth_ok(psi, geo, gate, d):
 # stable key below through ctx.fail (then listed in known_findings.json it prints as KNOWN-FINDING).
 SUM_LEG_FINDING = {
     "key": "c11:mpo-sum:hard-fusion-intersection",
-    "report": False,
+    "report": True,   # confirmed and repaired in /repo (68677ec, known_findings.json: fixed): an alarm again if it returns
     "what": ("to_tensor() raises YastnError('Bond dimensions do not match.') after apply_gate_ of a Gate whose MPO is a sum of MPOs "
              "(mps.add, +, -): the virtual legs of the gate are direct sums (history 's'); once fused into the PEPS bonds, tensordot's "
              "hard-fusion intersection (_merging._masks_hfs_intersection, op == 's') cannot match the two sides of a bond when the "
